@@ -205,3 +205,27 @@ def year_boundary():
                             'Zone\t%s\t%s\t%s\tT%%sT' % (z, so, p)])
                         out.append(('yearedge', '%s%s' % (mon, on), '%s %s %s stdoff %s %s' % (mon, on, at, so, orient), text, z))
     return out
+
+def granularity_source():
+    """-> [(family, signature, description, text, zone)] zones whose fields are NOT aligned to the table granularity
+    (STDOFF with odd minutes / seconds, AT / UNTIL / SAVE off the 15-minute or 1-minute grid) plus aligned controls:
+    the truncation (non-strict) and removal (strict) paths of the compiler. One deviation per zone, exhaustive product."""
+    out = []
+    def add(sig, rules, eras):
+        k = len(out); z, p = 'G/g%d' % k, 'G%d' % k
+        lines = [r.replace('@P', p) for r in rules]
+        for j, e in enumerate(eras):
+            lines.append(('Zone\t%s\t' % z if j == 0 else '\t\t\t') + e.replace('@P', p))
+        out.append(('granularity', sig, sig, '\n'.join(lines), z))
+    base_rules = ['Rule\t@P\t1990\tmax\t-\tMar\tlastSun\t2:00\t1:00\tD', 'Rule\t@P\t1990\tmax\t-\tOct\tlastSun\t3:00\t0\tS']
+    for so in ('5:30', '5:40', '5:37', '-0:44:30', '0:01', '-0:01', '-0:01:15', '12:45:59', '-3:30:01', '0:00:30', '-4:56', '-0:44'):
+        add('STDOFF=' + so, [], ['%s\t-\tLMT' % so])
+        add('STDOFF=%s+rules' % so, base_rules, ['%s\t@P\tX%%sT' % so])
+    for at in ('2:00', '2:07', '2:15', '1:59:59', '0:00:01', '23:59:59', '2:07s', '2:07u', '24:00'):
+        add('AT=' + at, ['Rule\t@P\t1990\tmax\t-\tMar\tlastSun\t%s\t1:00\tD' % at, base_rules[1]], ['1:00\t@P\tX%sT'])
+    for sv in ('1:00', '0:20', '0:30', '0:07', '1:00:30', '-0:20', '2:40'):
+        add('SAVE=' + sv, ['Rule\t@P\t1990\tmax\t-\tMar\tlastSun\t2:00\t%s\tD' % sv, base_rules[1]], ['1:00\t@P\tX%sT'])
+        add('RULES=' + sv, [], ['1:00\t%s\tFXT\t2010 Jun 1' % sv, '1:00\t-\tSTT'])
+    for ut in ('2:00', '2:07', '1:59:59', '0:00:01', '2:07s', '2:07u'):
+        add('UNTIL=' + ut, base_rules, ['1:00\t@P\tX%%sT\t2010 Jun 15 %s' % ut, '2:00\t-\tYYT'])
+    return out
